@@ -14,7 +14,7 @@
     new: the graph is [DagState.graph_of_build] of these definitions. *)
 From Coq Require Import List Arith Bool PeanoNat.
 From Leaspy Require Dag.DagModel Dag.GraphLit Dag.FromDict.
-From Leaspy Require Import State.StateModel Compose.DagState.
+From Leaspy Require Import State.StateModel State.StateNow Compose.DagState.
 Import ListNotations.
 
 Section Defs.
@@ -52,3 +52,33 @@ Definition graph_from_definitions (ds : list FromDict.vdef) (r : DagModel.dag) (
   graph_of_build (sdefs ds) r v0.
 
 End Defs.
+
+Arguments names_of c : assert.
+
+(** * What "the State model is sound on the graph obtained from these definitions" means — for every value type,
+      every attachment of hyper-parameter values / axis flags / node functions, every semantic record:
+      the graph is well formed, has one node per definition, the parents of a node are exactly the named parameters of
+      its function; after ANY history without per-individual revert — and after any history respecting the documented
+      precondition when the node functions satisfy [F_mix] — a successful read is the from-scratch value. *)
+Definition state_sound_from_definitions (ds : list FromDict.vdef) (r : DagModel.dag) : Prop :=
+  forall (V M IX : Type) (hv : nat -> V) (ax : nat -> bool) (fs : nat -> list V -> V) (v0 : V) (sm : sem V M IX),
+    let g := graph_from_definitions V hv ax fs ds r v0 in
+    WF g /\ gn g = length ds /\
+    (forall k p, k < length ds ->
+       (In p (parents g k) <->
+        exists q, FromDict.is_param_of ds q (nth k (DagModel.order r) 0) /\ p = index_of q (DagModel.order r))) /\
+    (forall ops, forallb (@no_partial_revert V M IX) ops = true ->
+     forall k i st v,
+       nth_error (fst (run_now g sm (init_store g) ops)) k = Some st ->
+       snd (step_now g sm (fst (run_now g sm (init_store g) ops)) (Get k i)) = Ok v ->
+       scratch g (values st) i = Some v) /\
+    (F_mix g sm ->
+     forall ops, MaskDisciplined g sm (init_store g) ops ->
+     forall k i st v,
+       nth_error (fst (run_now g sm (init_store g) ops)) k = Some st ->
+       snd (step_now g sm (fst (run_now g sm (init_store g) ops)) (Get k i)) = Ok v ->
+       scratch g (values st) i = Some v).
+
+(** executable acceptance test, for lists of definitions regenerated from the running code *)
+Definition accepted_b (ds : list FromDict.vdef) : bool :=
+  match FromDict.from_dict ds with FromDict.FOk _ => true | FromDict.FErr _ => false end.
